@@ -84,6 +84,14 @@ class StreamSpec:
         self.n_items = 0
         self.fail_after = None
         self.item_async = ()
+        self.fail_by_item = False  # the failure at fail_after is the rejection of that item
+        self.item_hang = ()  # items behind a failing item that never complete by themselves
+        self.item_slowc = ()  # early-executed item runs in a task that cancels slowly
+        self.src_wait = ()  # the source needs a moment (an external) before item i
+        self.slow_close = False  # the abort callback (closing the source) awaits an external
+        self.started = 0  # the producer function was entered (the source is in use)
+        self.finished = False  # ... and returned normally
+        self.abort_calls = 0  # how often the queue ran its abort callback
         self.item_work = {}  # index -> WorkSpec
         self.label = f"S{sid}"
         self.obj = None
@@ -110,6 +118,24 @@ class GraphSpec:
         self.async_num = (0, 3, 6, 8)[tape.weighted((1, 3, 3, 1), "w2_async")]
         self.nest_num = (0, 2, 4)[tape.weighted((2, 3, 2), "w2_nest")]
         self.initial = self.work(None, (), 0, big)
+        self.itemfail_motif = tape.draw(3, "w2_itemfail_motif") == 0
+        if self.itemfail_motif:
+            # motif: a stream whose head (or second) item rejects while slower items are pending
+            # behind it and the source keeps delivering items that never complete by themselves
+            t = tape
+            self.nstream += 1
+            ss = StreamSpec(self.nstream, (f"s{self.nstream}",))
+            ss.n_items = 3 + t.draw(3, "w2_m_items")
+            ss.fail_after = t.draw(2, "w2_m_fail")
+            ss.fail_by_item = True
+            ss.item_async = (True,) * ss.n_items
+            ss.item_hang = tuple(bool(t.draw(4, "w2_m_hang")) for _ in range(ss.n_items))
+            ss.item_slowc = tuple(bool(t.draw(2, "w2_m_slowc")) for _ in range(ss.n_items))
+            ss.src_wait = tuple(i > ss.fail_after and bool(t.draw(3, "w2_m_wait"))
+                                for i in range(ss.n_items))
+            ss.slow_close = t.draw(4, "w2_m_sclose") == 0
+            self.initial.streams.append(ss)
+            self.all_streams.append(ss)
 
     def ext_path(self, base, maxadd=1):
         t = self.t
@@ -204,6 +230,14 @@ class GraphSpec:
                 ss.fail_after = t.draw(ss.n_items + 1, "w2_sfailj")
             ss.item_async = tuple(t.draw(8, "w2_iasync") < self.async_num
                                   for _ in range(ss.n_items))
+            ss.slow_close = t.draw(4, "w2_sclose") == 0
+            if ss.fail_after is not None and ss.fail_after < ss.n_items and t.draw(2, "w2_fbi"):
+                # the stream fails because item fail_after rejects; the source goes on producing
+                # items behind it, some of which never complete by themselves
+                ss.fail_by_item = True
+                ss.item_hang = tuple(bool(t.draw(2, "w2_ihang")) for _ in range(ss.n_items))
+                ss.item_slowc = tuple(t.draw(3, "w2_islow") == 0 for _ in range(ss.n_items))
+                ss.src_wait = tuple(t.draw(3, "w2_swait") == 0 for _ in range(ss.n_items))
             if level < 2:
                 for i in range(ss.n_items):
                     if t.draw(8, "w2_inest") < self.nest_num // 2:
@@ -258,6 +292,9 @@ class GraphSpec:
                            "nested": w(t.nested) if t.nested else None} for t in ws.tasks],
                 "streams": [{"id": s.label, "path": list(s.path), "items": s.n_items,
                              "fail_after": s.fail_after, "item_async": list(s.item_async),
+                             "slow_close": s.slow_close,
+                             "fail_by_item": s.fail_by_item, "item_hang": list(s.item_hang),
+                             "item_slowc": list(s.item_slowc), "src_wait": list(s.src_wait),
                              "item_work": {str(i): w(x) for i, x in s.item_work.items()}}
                             for s in ws.streams],
             }
@@ -359,6 +396,8 @@ class World2:
         self.queues = []
         self.task_runs = {}
         self.pushed = set()  # (stream id, item index) whose push() returned
+        self.slow_cancels = 0
+        self.pushed_behind_failure = 0  # items handed to a queue behind a failing item
 
     def build(self, ws):
         groups = []
@@ -375,7 +414,7 @@ class World2:
             tasks.append(t.obj)
         streams = []
         for s in ws.streams:
-            q = StreamItemQueue(self.produce_fn(s), None, eager=self.early,
+            q = StreamItemQueue(self.produce_fn(s), self.abort_fn(s), eager=self.early,
                                 capacity=self.capacity)
             self.queues.append(q)
             s.queue = q
@@ -409,22 +448,67 @@ class World2:
         work = self.build(t.nested) if t.nested is not None else None
         return WorkResult(value, work)
 
+    def abort_fn(self, s):
+        """The abort callback of the queue: what closes the source in the real executor."""
+        def on_abort(_reason):
+            s.abort_calls += 1
+            self.sim.log("stream-abort-callback", s.sid)
+            if not s.slow_close:
+                return None
+            ext = self.sim.external(f"sclose:{s.sid}", "aclose", ("value", None))
+
+            async def close():
+                await ext.fut
+
+            return close()
+
+        return on_abort
+
     def produce_fn(self, s):
+        async def slow_item(i, outcome, hanging):
+            # (the external is created by the task's first step: a task cancelled before it
+            # ever ran leaves nothing behind that could be waited for)
+            ext = self.sim.external(f"sitem:{s.sid}:{i}", "item", outcome, hanging=hanging)
+            try:
+                return await ext.fut
+            except asyncio.CancelledError:
+                self.slow_cancels += 1
+                await self.sim.external(f"sitemc:{s.sid}:{i}", "cleanup", ("value", None)).fut
+                raise
+
         async def produce(queue):
+            s.started += 1
+            await produce_items(queue)
+            s.finished = True
+
+        async def produce_items(queue):
             for i in range(s.n_items):
-                if s.fail_after is not None and i == s.fail_after:
+                if s.src_wait and s.src_wait[i]:
+                    await self.sim.external(f"src:{s.sid}:{i}", "anext", ("value", None)).fut
+                failing = s.fail_by_item and i == s.fail_after
+                if s.fail_after is not None and i == s.fail_after and not failing:
                     raise GraphQLError(f"S{s.sid} failed")
                 work = self.build(s.item_work[i]) if i in s.item_work else None
                 result = WorkResult(StreamItemValue(i, None), work)
-                if s.item_async[i]:
-                    ext = self.sim.external(f"sitem:{s.sid}:{i}", "item", ("value", result))
-                    if self.early:
-                        await queue.push(ext.fut)
+                behind = s.fail_by_item and i > s.fail_after
+                if s.item_async[i] or failing:
+                    outcome = (("raise", GraphQLError(f"S{s.sid} failed")) if failing
+                               else ("value", result))
+                    hanging = bool(behind and s.item_hang[i])
+                    if self.early and s.item_slowc and s.item_slowc[i]:
+                        await queue.push(asyncio.ensure_future(slow_item(i, outcome, hanging)))
                     else:
-                        await queue.push(await ext.fut)
+                        ext = self.sim.external(f"sitem:{s.sid}:{i}", "item", outcome,
+                                                hanging=hanging)
+                        if self.early:
+                            await queue.push(ext.fut)
+                        else:
+                            await queue.push(await ext.fut)
                 else:
                     await queue.push(result)
                 self.pushed.add((s.sid, i))
+                if behind:
+                    self.pushed_behind_failure += 1
             if s.fail_after is not None and s.fail_after >= s.n_items:
                 raise GraphQLError(f"S{s.sid} failed")
 
@@ -719,6 +803,8 @@ def run_unit(seed=None, unit=None, tier="quick", stats=None, prop="C05"):
                 bump(stats, "w2_shapes", "shared_tasks", shape[3])
                 bump(stats, "w2_shapes", "failing_tasks", shape[4])
                 bump(stats, "w2_shapes", "failing_streams", shape[5])
+                bump(stats, "w2_shapes", "streams_failing_by_item",
+                     sum(1 for s_ in spec.all_streams if s_.fail_by_item))
         st = (Tape(values=sched_values[r]) if sched_values is not None
               else Tape((seed, "w2sched", r)))
         sched_tapes.append(st)
@@ -733,6 +819,8 @@ def run_unit(seed=None, unit=None, tier="quick", stats=None, prop="C05"):
             for f in out["mon"].features:
                 bump(stats, "probes", "w2_" + f)
             bump(stats, "probes", "w2_payloads", out["mon"].n_payloads)
+            bump(stats, "probes", "w2_items_pushed_behind_failing_item",
+                 out["world"].pushed_behind_failure)
             bump(stats, "probes", "w2_nesting_rule_checked", out["mon"].nesting_checked)
             bump(stats, "probes", "w2_leftover_tasks", 1 if sim.unfinished_tasks() else 0)
         vs = check_graph(spec, sim, out, prop)
